@@ -6,7 +6,10 @@ import (
 	"bufio"
 	"context"
 
+	"github.com/mgtv-tech/redis-GunYu/config"
+	"github.com/mgtv-tech/redis-GunYu/pkg/log"
 	"github.com/mgtv-tech/redis-GunYu/pkg/redis"
+	"github.com/mgtv-tech/redis-GunYu/pkg/redis/checkpoint"
 	"github.com/mgtv-tech/redis-GunYu/pkg/redis/client"
 	usync "github.com/mgtv-tech/redis-GunYu/pkg/sync"
 )
@@ -75,4 +78,11 @@ func (ri *RedisInput) VerifSyncMeta(ctx context.Context) (cli *redis.StandaloneR
 	}
 	isFullSync, rdbSize, locSp, outSp, err = ri.syncMeta(ctx, cli)
 	return
+}
+
+// VerifResolveBisyncNamespace runs the bidirectional namespace resolution of newOutput on cli : creation,
+// mode inference and the migration of the recovery state to the format of another replay mode.
+func VerifResolveBisyncNamespace(cli client.Redis, output config.RedisConfig, ids []string, mode config.ReplayMode) (string, error) {
+	s := &syncer{cfg: SyncerConfig{Output: output}, logger: log.WithLogger("[verif] ")}
+	return s.resolveBisyncCheckpointNameWithClient(cli, ids, checkpoint.BisyncModeFromReplayMode(mode), bisyncRecoverySlotsForConfig(output))
 }
